@@ -241,16 +241,41 @@ def _anc(p, n):
 def rule_eof(ctx):
     p = ctx.p
     ctx.rule("C19.EOF", "every loop that reads lines from a peer terminates on an empty read")
-    for cls, name in (("Server", "parse_command"), ("BaseClient", "parse_line")):
-        fn = p.method(cls, name)
-        var = None
-        for n in walk_no_nested(fn):
-            if isinstance(n, ast.Assign) and isinstance(n.value, ast.Await) and isinstance(n.value.value, ast.Call) and is_method_call(n.value.value, "readline") and isinstance(n.targets[0], ast.Name):
-                var = n.targets[0].id
-        ok = var is not None and any(isinstance(n, ast.If) and isinstance(n.test, ast.UnaryOp) and isinstance(n.test.op, ast.Not) and isinstance(n.test.operand, ast.Name) and n.test.operand.id == var
-                                     and any(isinstance(s, ast.Raise) for s in n.body) for n in walk_no_nested(fn))
-        ctx.ob("C19.EOF", fn, f"{cls}.{name}: an empty read (peer closed) raises", ok,
-               f"{name}: an empty read (peer closed) is not turned into an error: the reader loops forever on a closed stream", construct=f"eof:{name}")
+    # every read of a control line (server: the command reader; client: the reply reader and whatever helper reads continuation lines) is followed
+    # by `if not <line>: ... raise` before the line is used
+    lister = p.nested(p.method("Client", "list"), "__anext__")
+    n_sites = 0
+    for cls in ("Server", "BaseClient", "Client"):
+        for m in p.methods(cls).values():
+            for fn in [m] + p.nested_functions(m):
+                if fn is lister or any(fn is x for x in p.nested_functions(lister)):
+                    continue    # the data-stream lister has its own end-of-listing rule below
+                for n in walk_no_nested(fn):
+                    if not (isinstance(n, ast.Await) and isinstance(n.value, ast.Call) and is_method_call(n.value, "readline") and not n.value.args):
+                        continue
+                    n_sites += 1
+                    par = p.parent.get(n)
+                    var = par.targets[0].id if isinstance(par, ast.Assign) and len(par.targets) == 1 and isinstance(par.targets[0], ast.Name) and par.value is n else None
+                    ok = False
+                    if var is not None:
+                        blk, idx = None, None
+                        owner = p.parent.get(par)
+                        for fld in ("body", "orelse", "finalbody"):
+                            b_ = getattr(owner, fld, None)
+                            if isinstance(b_, list) and par in b_:
+                                blk, idx = b_, b_.index(par)
+                        for st in (blk[idx + 1:] if blk is not None else []):
+                            if isinstance(st, ast.If) and isinstance(st.test, ast.UnaryOp) and isinstance(st.test.op, ast.Not) and isinstance(st.test.operand, ast.Name) \
+                                    and st.test.operand.id == var and st.body and isinstance(st.body[-1], ast.Raise):
+                                ok = True
+                                break
+                            if any(isinstance(x, ast.Name) and x.id == var for x in ast.walk(st)):
+                                break    # used before it was tested
+                    ctx.ob("C19.EOF", n, f"{p.qualname(fn)}: an empty control-line read (peer closed) raises before the line is used", ok,
+                           f"{p.qualname(fn)}: an empty read (peer closed) is not turned into an error before the line is parsed: the reader loops forever on a closed stream "
+                           "(or parses an empty line as a reply)", construct=f"eof:{fn.name}", function=p.qualname(fn))
+    if n_sites < 2:
+        ctx.floor_errors.append(f"rule=C19.EOF: {n_sites} control-line read sites (floor 2)")
     lst = p.nested(p.method("Client", "list"), "__anext__")
     inner = [w for w in walk_no_nested(lst) if isinstance(w, ast.While) and isinstance(w.test, ast.UnaryOp) and isinstance(w.test.op, ast.Not)]
     ok = False
@@ -355,6 +380,8 @@ def rule_release(ctx):
     from .c12 import rule_fields
     ctx.borrow(rule_finally, {"C10.FINALLY": "C19.RELEASE"})
     ctx.borrow(rule_fields, {"C12.FIELDS": "C19.RELEASE"})
+    from .c12 import rule_detach
+    ctx.borrow(rule_detach, {"C12.DETACH": "C19.RELEASE"})   # a garbage transfer argument fails in open(): the detached data stream must already be protected
 
 
 RULES = [rule_funnel, rule_nodrop, rule_srv, rule_eof, rule_dot, rule_release, rule_noswallow]
